@@ -129,13 +129,23 @@ def unit_grouping(tier, T, D, delays):
     names = list(ts.signal_mapping)
     sd = {n: d for n, d in zip(names, delays[1:])}
     new_times = np.array([0.03, 0.11, 0.19][:max(2, T - 1)])
+    def grp_replay(predicted):
+        def rp(model, witness):
+            tsc, smc, _P = load(symbolic=False)
+            rng = np.random.RandomState(1)
+            vals = rng.uniform(-1, 1, size=(T, D)) * 1e6
+            tsx = tsc.TimeSeries(times_for(T), vals, mapping(tsc, D))
+            o = smc.apply_resample_and_delay(tsx, new_times, delays[0], sd, predicted)
+            ref = smc._apply_resample_and_delay_columnwise(tsx, new_times, smc._build_per_column_delays(tsx, delays[0], sd, predicted))
+            return (not np.array_equal(o.data, ref)), {'max_abs_difference': float(np.max(np.abs(o.data - ref))), 'delays': list(delays)}
+        return rp
     for predicted in (True, False):
         out = sm.apply_resample_and_delay(ts, new_times, delays[0], sd, predicted)
         percol = sm._build_per_column_delays(ts, delays[0], sd, predicted)
         ref = sm._apply_resample_and_delay_columnwise(ts, new_times, percol)
         a = pysym.terms(out.data); b = pysym.terms(ref)
         ck.prove('grouped resampling equals the column-wise reference in every cell (predicted=%s)' % predicted, [], z3.And(*[x == y for x, y in zip(a, b)]) if len(a) == len(b) else z3.BoolVal(False),
-                 site='apply_resample_and_delay:grouping', decode=lambda mdl: {'T': T, 'D': D, 'delays': delays})
+                 site='apply_resample_and_delay:grouping', decode=lambda mdl: {'T': T, 'D': D, 'delays': delays}, replay=grp_replay(predicted))
         ck.prove('result has the requested timestamps and shape', [], z3.BoolVal(out.data.shape == (len(new_times), D) and np.array_equal(out.times, new_times)), site='apply_resample_and_delay:shape')
     # resampling at the original timestamps returns the original data
     out = ts.resample(times_for(T).copy())
@@ -156,6 +166,6 @@ def units(tier):
             u.append(('resample_T%d_D%d_d%g' % (T, D, d), 'unit_modifier', {'fn_name': 'resample', 'T': T, 'D': D, 'delay': d}))
         u.append(('apply_resample_and_delay_T%d_D%d' % (T, D), 'unit_modifier', {'fn_name': 'apply_resample_and_delay', 'T': T, 'D': D, 'delay': 0.05}))
         if D >= 2:
-            for ds in ([(0.0, 0.05, 0.05), (0.02, 0.02, 0.1), (0.0, 0.0, 0.0)]):
+            for ds in ([(0.0, 0.05, 0.05), (0.02, 0.02, 0.1), (0.0, 0.0, 0.0), (0.0, 0.01, 0.0100000004), (0.3, 0.1 + 0.2, 0.3)]):
                 u.append(('grouping_T%d_D%d_%s' % (T, D, '_'.join('%g' % d for d in ds)), 'unit_grouping', {'T': T, 'D': D, 'delays': ds}))
     return u
